@@ -275,6 +275,7 @@ def run_check(mod, tier: str, seed: int, workers: Optional[int] = None) -> int:
         "known_findings_hit": sorted(known_hits),
         "harness_errors": len(errors),
     }
+    os.makedirs(EVIDENCE_DIR, exist_ok=True)
     with open(os.path.join(EVIDENCE_DIR, f"{prop}.json"), "w") as f:
         json.dump(ev, f, indent=1, sort_keys=False)
         f.write("\n")
